@@ -227,9 +227,9 @@ def read_source(repo, features=()):
 # ------------------------------------------------------------------ type -> codec
 
 class Codec:
-    def __init__(self, coq, enc, dec, wf, rt, uses_b=False, blob=False, minsize=0):
+    def __init__(self, coq, enc, dec, wf, rt, uses_b=False, blob=False, minsize=0, streamed=False):
         self.coq, self.enc, self.dec, self.wf, self.rt = coq, enc, dec, wf, rt
-        self.uses_b, self.blob, self.minsize = uses_b, blob, minsize
+        self.uses_b, self.blob, self.minsize, self.streamed = uses_b, blob, minsize, streamed
 
 
 def P(s):
@@ -256,6 +256,8 @@ class Translator:
                 raise GenError("%s derives SerBolt without the Encodable/Decodable derive (hand-written codec): unsupported" % it["name"])
         self.uses_b = {}
         self.has_blob = {}
+        self.has_streamed = {}
+        self.minsz = {}
 
     # codec of a type reached through T::consensus_encode (Array elements, nested structs, ...)
     def consensus(self, ty, where):
@@ -298,24 +300,24 @@ class Translator:
             if inner == "PsbtWrapper":
                 return Codec("PsbtT B", "enc_ws_psbt B", "dec_ws_psbt B", "wf_ws_psbt B", "rt_ws_psbt B HB", True, True, 4)
             if inner == "StreamedPSBT":
-                return Codec("PsbtT B", "enc_ws_streamed B", "dec_ws_streamed B", "wf_ws_streamed B", "rt_ws_streamed B HB", True, True, 4)
+                return Codec("PsbtT B", "enc_ws_streamed B", "dec_ws_streamed B", "wf_ws_streamed B", "rt_ws_streamed B HB", True, True, 4, True)
             e = self.consensus(args[0], where)
             return Codec(e.coq, "enc_withsize %s" % P(e.enc), "dec_withsize (exact %s)" % P(e.dec),
                          "wf_withsize %s %s" % (P(e.enc), P(e.wf)),
                          "rt_withsize %s (exact %s) %s (exact_of_roundtrip _ _ _ %s)" % (P(e.enc), P(e.dec), P(e.wf), P(e.rt)),
-                         e.uses_b, e.blob, 4)
+                         e.uses_b, e.blob, 4, e.streamed)
         if name == "DebugTxoProof" and not args:
             return Codec("ProofT B", "enc_proof B", "dec_proof B", "wf_proof B", "rt_proof B HB", True, True, 5)
         if name in self.structs and not args:
             self.struct_info(name)
             return Codec("T_" + name, "enc_" + name, "dec_" + name, "wf_" + name, "rt_" + name,
-                         self.uses_b[name], self.has_blob[name], self.minsz[name])
+                         self.uses_b[name], self.has_blob[name], self.minsz[name], self.has_streamed[name])
         raise GenError("%s: type %s%s has no codec in the model (Transaction / PsbtWrapper / StreamedPSBT are only "
                        "supported inside WithSize<>)" % (where, name, "<..>" if args else ""))
 
     def array(self, e):
         return Codec("list %s" % P(e.coq), "enc_array %s" % P(e.enc), "dec_array %s" % P(e.dec), "wf_array %s" % P(e.wf),
-                     "rt_array _ _ _ %s" % P(e.rt), e.uses_b, e.blob, 2)
+                     "rt_array _ _ _ %s" % P(e.rt), e.uses_b, e.blob, 2, e.streamed)
 
     # codec of a struct field as the Encodable/Decodable derive emits it
     def field(self, ty, where):
@@ -329,10 +331,8 @@ class Translator:
         if name == "Option" and len(args) == 1:
             e = self.field(args[0], where)
             return Codec("option %s" % P(e.coq), "enc_option %s" % P(e.enc), "dec_option %s" % P(e.dec),
-                         "wf_option %s" % P(e.wf), "rt_option _ _ _ %s" % P(e.rt), e.uses_b, e.blob, 1)
+                         "wf_option %s" % P(e.wf), "rt_option _ _ _ %s" % P(e.rt), e.uses_b, e.blob, 1, e.streamed)
         return self.consensus(ty, where)
-
-    minsz = {}
 
     def struct_info(self, name):
         if name in self.uses_b:
@@ -340,10 +340,12 @@ class Translator:
         it = self.structs[name]
         self.uses_b[name] = False   # (recursive structs do not occur; a cycle would loop in Coq anyway)
         self.has_blob[name] = False
+        self.has_streamed[name] = False
         cs = [self.field(t, "%s.%s" % (name, f)) for f, t in it["fields"]]
         it["codecs"] = cs
         self.uses_b[name] = any(c.uses_b for c in cs)
         self.has_blob[name] = any(c.blob for c in cs)
+        self.has_streamed[name] = any(c.streamed for c in cs)
         self.minsz[name] = sum(c.minsize for c in cs)
 
     def run(self):
@@ -484,13 +486,15 @@ class Translator:
             barg = " B0" if self.uses_b[n] else ""
             if it["tuple"]:
                 w("impl Arb for %s { fn arb(g: &mut Gen) -> Self { %s(Arb::arb(g)) } }" % (n, n))
-                w("impl ToCoq for %s { fn coq(&self) -> String { self.0.coq() } }" % n)
+                w("impl ToCoq for %s { fn coq(&self) -> String { self.0.coq() } fn canon(&self, r: bool) -> String { self.0.canon(r) } }" % n)
                 continue
             w("impl Arb for %s { fn arb(g: &mut Gen) -> Self { %s { %s } } }" % (
                 n, n, ", ".join("%s: Arb::arb(g)" % f for f in fs)))
             if fs:
-                w('impl ToCoq for %s { fn coq(&self) -> String { format!("(Build_%s%s%s)", %s) } }' % (
-                    n, n, barg, " {}" * len(fs), ", ".join("self.%s.coq()" % f for f in fs)))
+                w('impl ToCoq for %s { fn coq(&self) -> String { format!("(Build_%s%s%s)", %s) } '
+                  'fn canon(&self, r: bool) -> String { format!("(%s%s)", %s) } }' % (
+                    n, n, barg, " {}" * len(fs), ", ".join("self.%s.coq()" % f for f in fs),
+                    n, " {}" * len(fs), ", ".join("self.%s.canon(r)" % f for f in fs)))
             else:
                 w('impl ToCoq for %s { fn coq(&self) -> String { "(Build_%s%s)".to_string() } }' % (n, n, barg))
         for n in self.msgs:
@@ -498,17 +502,18 @@ class Translator:
               "    fn name(&self) -> &'static str { \"%s\" }\n"
               "    fn bytes(&self) -> Vec<u8> { SerBolt::as_vec(self) }\n"
               "    fn coq_msg(&self) -> String { format!(\"(M_%s B0 {})\", self.coq()) }\n"
+              "    fn canon_msg(&self, r: bool) -> String { self.canon(r) }\n"
               "}" % (n, n, n))
         w("pub const TYPES: &[TypeInfo] = &[")
         for n in self.msgs:
-            w('    TypeInfo { name: "%s", id: %d, has_blob: %s, dispatched: %s, gen: |g| Box::new(<%s as Arb>::arb(g)) },' % (
+            w('    TypeInfo { name: "%s", id: %d, has_blob: %s, has_streamed: %s, dispatched: %s, gen: |g| Box::new(<%s as Arb>::arb(g)) },' % (
                 n, self.structs[n]["attrs"]["message_id"], "true" if self.has_blob[n] else "false",
-                "true" if n in self.table else "false", n))
+                "true" if self.has_streamed[n] else "false", "true" if n in self.table else "false", n))
         w("];")
-        w("/// variant name, Coq term, re-encoded bytes of a decoded message")
+        w("/// variant name, canonical structure (as received), re-encoded bytes of a decoded message")
         w("pub fn describe(m: &Message) -> (String, String, Vec<u8>) {\n    match m {")
         for n in self.table:
-            w('        Message::%s(i) => ("%s".to_string(), AnyMsg::coq_msg(i), AnyMsg::bytes(i)),' % (n, n))
+            w('        Message::%s(i) => ("%s".to_string(), AnyMsg::canon_msg(i, true), AnyMsg::bytes(i)),' % (n, n))
         w('        Message::Unknown(u) => ("Unknown".to_string(), format!("{}", u.message_type), vec![]),')
         w("    }\n}")
         return "\n".join(o) + "\n"
